@@ -345,7 +345,7 @@ theorem matchDihedral_symm (P : List Pat) (F : TableFacts P) (t : TypeTable) (a 
 
 /-! ## Part 2: exact / reversed lookup, macros, multi-term expansion -/
 
-theorem lookupType_nondihedral (P : List Pat) (it : String) (a : Key) (t : TypeTable) (h : it ≠ "dihedrals") :
+theorem lookupType_nondihedral (P : List Pat) (it : String) (a : Key) (t : TypeTable) (h : dihLike it = false) :
     lookupType P it a t = (match tlookup t a with | some e => some e | none => tlookup t a.reverse) := by
   unfold lookupType
   cases tlookup t a with
@@ -418,7 +418,7 @@ def termsFor (P : List Pat) (opls : Bool) (ats : List AtomType) (b : Block) (it 
 
 /-- what happens to the interaction itself -/
 def upd (P : List Pat) (opls : Bool) (ats : List AtomType) (b : Block) (it : String) (t : TypeTable) (i : Ixn) : Ixn :=
-  if i.params.length == 1 then
+  if i.params.length == paramlessLen then
     match termsFor P opls ats b it t i with
     | some (e :: _) => firstTerm i e
     | _ => i
@@ -426,7 +426,7 @@ def upd (P : List Pat) (opls : Bool) (ats : List AtomType) (b : Block) (it : Str
 
 /-- the interactions added for it -/
 def ext (P : List Pat) (opls : Bool) (ats : List AtomType) (b : Block) (it : String) (t : TypeTable) (i : Ixn) : List Ixn :=
-  if i.params.length == 1 then
+  if i.params.length == paramlessLen then
     match termsFor P opls ats b it t i with
     | some (_ :: es) => extraTerms i es
     | _ => []
@@ -437,7 +437,7 @@ theorem resolveIxn_ok (P : List Pat) (opls : Bool) (ats : List AtomType) (b : Bl
     i' = upd P opls ats b it t i ∧ add = ext P opls ats b it t i := by
   unfold resolveIxn at h
   unfold upd ext termsFor
-  by_cases hl : (i.params.length == 1) = true
+  by_cases hl : (i.params.length == paramlessLen) = true
   · simp only [hl, if_true] at h ⊢
     cases hk : ixnKey opls ats b i with
     | none => simp [hk] at h
@@ -721,9 +721,6 @@ theorem find_isSome_names {β} (l : List (String × β)) (nm : String) :
     simp only [List.find?_cons, List.map_cons, List.any_cons]
     cases hx : x.1 == nm <;> simp [ihx]
 
-/-- the OPLS switch of `gen_bonded_interactions` -/
-def oplsOf (d : Defines) : Bool := (dlookup d "_FF_OPLS").isSome || (dlookup d "_FF_OPLS_AA").isSome
-
 /-- Every molecule instance of a successfully preprocessed topology carries, section by section, the
 expansion of its (macro-substituted) block; and every `[molecules]` entry that names a block is there. -/
 theorem preprocess_instances (P : List Pat) (cf : List (Nat × String)) (tp : Topo) (r : Result)
@@ -742,8 +739,7 @@ theorem preprocess_instances (P : List Pat) (cf : List (Nat × String)) (tp : To
       | error e => simp [hb] at h
       | ok blocks =>
         simp only [hb] at h
-        cases hr : mapBlocksM (fun b => (resolveBlock P ((dlookup tp.defines "_FF_OPLS").isSome ||
-            (dlookup tp.defines "_FF_OPLS_AA").isSome) tp.atomTypes tp.types b).map fun s => (b.name, s)) blocks with
+        cases hr : mapBlocksM (fun b => (resolveBlock P (oplsOf tp.defines) tp.atomTypes tp.types b).map fun s => (b.name, s)) blocks with
         | error e => simp [hr] at h
         | ok resolved =>
           simp only [hr] at h
@@ -754,8 +750,7 @@ theorem preprocess_instances (P : List Pat) (cf : List (Nat × String)) (tp : To
           have names2 : resolved.map (·.1) = blocks.map (·.name) := by
             apply mapBlocksM_map _ (·.1) (·.name) _ _ _ hr
             intro b x hx
-            cases hs : resolveBlock P ((dlookup tp.defines "_FF_OPLS").isSome ||
-              (dlookup tp.defines "_FF_OPLS_AA").isSome) tp.atomTypes tp.types b with
+            cases hs : resolveBlock P (oplsOf tp.defines) tp.atomTypes tp.types b with
             | error e => simp [hs, Except.map] at hx
             | ok s => simp [hs, Except.map] at hx; subst hx; rfl
           constructor
@@ -772,14 +767,12 @@ theorem preprocess_instances (P : List Pat) (cf : List (Nat × String)) (tp : To
               obtain ⟨b', hb', hres⟩ := mapBlocksM_mem _ _ _ hr e he
               obtain ⟨b, hbm, hrep⟩ := mapBlocksM_mem _ _ _ hb b' hb'
               refine ⟨b, hbm, b', hrep, ?_, ?_⟩
-              · cases hs : resolveBlock P ((dlookup tp.defines "_FF_OPLS").isSome ||
-                  (dlookup tp.defines "_FF_OPLS_AA").isSome) tp.atomTypes tp.types b' with
+              · cases hs : resolveBlock P (oplsOf tp.defines) tp.atomTypes tp.types b' with
                 | error e' => simp [hs, Except.map] at hres
                 | ok s' =>
                   simp [hs, Except.map] at hres
                   rw [← replaceDefinesBlock_name _ _ _ hrep, ← hname, ← hres]
-              · cases hs : resolveBlock P ((dlookup tp.defines "_FF_OPLS").isSome ||
-                  (dlookup tp.defines "_FF_OPLS_AA").isSome) tp.atomTypes tp.types b' with
+              · cases hs : resolveBlock P (oplsOf tp.defines) tp.atomTypes tp.types b' with
                 | error e' => simp [hs, Except.map] at hres
                 | ok s' =>
                   simp [hs, Except.map] at hres
@@ -798,5 +791,213 @@ theorem preprocess_instances (P : List Pat) (cf : List (Nat × String)) (tp : To
               cases hf : resolved.find? (fun e => e.1 == nm) with
               | none => simpa using ihm
               | some e => simpa using ihm
+
+/-! ## Part 5: the valued pair table (`genPairsV`) refines the provenance table (`genPairs`) -/
+
+theorem combs2_names (ats : List AtomType) :
+    (combs2 ats).map (fun p => (p.1.name, p.2.name)) = combinations2 (ats.map (·.name)) := by
+  induction ats with
+  | nil => rfl
+  | cons x rest ih =>
+    simp only [combs2, combinations2, List.map_append, List.map_map, List.map_cons, ih]
+    rfl
+
+theorem mem_combs2 {α : Type} (l : List α) : ∀ p ∈ combs2 l, p.1 ∈ l ∧ p.2 ∈ l := by
+  induction l with
+  | nil => intro p hp; cases hp
+  | cons x rest ih =>
+    intro p hp
+    simp only [combs2, List.mem_append, List.mem_map] at hp
+    rcases hp with ⟨y, hy, rfl⟩ | hp
+    · exact ⟨List.mem_cons_self, List.mem_cons_of_mem _ hy⟩
+    · exact ⟨List.mem_cons_of_mem _ (ih p hp).1, List.mem_cons_of_mem _ (ih p hp).2⟩
+
+theorem name_inj (l : List AtomType) (hn : (l.map (·.name)).Nodup) (x y : AtomType) (hx : x ∈ l) (hy : y ∈ l)
+    (h : x.name = y.name) : x = y := by
+  induction l with
+  | nil => cases hx
+  | cons z rest ih =>
+    have hn' : (z.name :: rest.map (·.name)).Nodup := hn
+    obtain ⟨hz, hrest⟩ := List.nodup_cons.mp hn'
+    rcases List.mem_cons.mp hx with rfl | hx' <;> rcases List.mem_cons.mp hy with rfl | hy'
+    · rfl
+    · exact absurd (h ▸ List.mem_map_of_mem (f := (·.name)) hy') hz
+    · exact absurd (h ▸ List.mem_map_of_mem (f := (·.name)) hx') hz
+    · exact ih hrest hx' hy'
+
+theorem nbLookupV_erase (t : List NbV) (a b : String) :
+    nbLookup (t.map NbV.erase) a b = (nbLookupV t a b).map NbV.erase := by
+  unfold nbLookup nbLookupV
+  rw [List.find?_map]
+  rfl
+
+theorem addIfAbsentV_erase (t : List NbV) (e : NbV) :
+    (addIfAbsentV t e).map NbV.erase = addIfAbsent (t.map NbV.erase) e.erase := by
+  unfold addIfAbsentV addIfAbsent
+  have : (nbLookup (t.map NbV.erase) e.erase.a e.erase.b).isSome = (nbLookupV t e.a e.b).isSome := by
+    rw [nbLookupV_erase]; simp [NbV.erase]
+  rw [this]
+  split <;> simp
+
+theorem foldlV_erase (es t : List NbV) :
+    (es.foldl addIfAbsentV t).map NbV.erase = (es.map NbV.erase).foldl addIfAbsent (t.map NbV.erase) := by
+  induction es generalizing t with
+  | nil => rfl
+  | cons e es ih => rw [List.foldl_cons, ih, addIfAbsentV_erase, List.map_cons, List.foldl_cons]
+
+/-- forgetting the values of `genPairsV` gives exactly `genPairs` -/
+theorem genPairsV_erase (f : CombFn) (yes : Bool) (ats : List AtomType) (t : List NbV) :
+    (genPairsV f yes ats t).map NbV.erase = genPairs yes ats (t.map NbV.erase) := by
+  unfold genPairsV genPairs genSelfV genSelf
+  rw [foldlV_erase]
+  have hself : (ats.map fun a => (⟨a.name, a.name, .self, .exact a.nb1, .exact a.nb2⟩ : NbV)).map NbV.erase
+      = ats.map fun a => (⟨a.name, a.name, .self, some (a.nb1, a.nb2)⟩ : NbEntry) := by
+    rw [List.map_map]; rfl
+  rw [hself]
+  cases yes with
+  | false => rfl
+  | true =>
+    simp only [if_true]
+    unfold genCrossV genCross
+    rw [foldlV_erase]
+    have hcross : ((combs2 ats).map fun p => (⟨p.1.name, p.2.name, .generated, (combValues f p.1 p.2).1,
+          (combValues f p.1 p.2).2⟩ : NbV)).map NbV.erase
+        = (combinations2 (ats.map (·.name))).map fun p => (⟨p.1, p.2, .generated, none⟩ : NbEntry) := by
+      rw [← combs2_names, List.map_map, List.map_map]; rfl
+    rw [hcross]
+
+theorem nbLookupV_comm (t : List NbV) (a b : String) : nbLookupV t a b = nbLookupV t b a := by
+  unfold nbLookupV
+  congr 1
+  funext e
+  exact samePair_comm _ _ _ _
+
+theorem nbLookupV_congr (t : List NbV) (a b c d : String) (h : samePair a b c d = true) :
+    nbLookupV t a b = nbLookupV t c d := by
+  unfold nbLookupV
+  congr 1
+  funext e
+  exact samePair_trans _ _ _ _ _ _ h
+
+theorem nbLookupV_foldl (es : List NbV) (t : List NbV) (a b : String) :
+    nbLookupV (es.foldl addIfAbsentV t) a b =
+      (match nbLookupV t a b with
+       | some e => some e
+       | none => es.find? (fun e => samePair e.a e.b a b)) := by
+  induction es generalizing t with
+  | nil => simp only [List.foldl_nil, List.find?_nil]; cases nbLookupV t a b <;> rfl
+  | cons e es ih =>
+    rw [List.foldl_cons, ih]
+    unfold addIfAbsentV
+    by_cases hp : (nbLookupV t e.a e.b).isSome = true
+    · simp only [hp, if_true]
+      cases hl : nbLookupV t a b with
+      | some x => rfl
+      | none =>
+        simp only [List.find?_cons]
+        cases hs : samePair e.a e.b a b with
+        | false => rfl
+        | true =>
+          rw [nbLookupV_congr t e.a e.b a b hs, hl] at hp
+          exact absurd hp (by simp)
+    · simp only [hp]
+      have happ : nbLookupV (t ++ [e]) a b =
+          (match nbLookupV t a b with | some x => some x | none => if samePair e.a e.b a b then some e else none) := by
+        unfold nbLookupV
+        rw [List.find?_append]
+        cases List.find? (fun e => samePair e.a e.b a b) t with
+        | some x => rfl
+        | none => simp only [List.find?_cons, List.find?_nil]; cases samePair e.a e.b a b <;> rfl
+      simp only [Bool.false_eq_true, if_false]
+      rw [happ]
+      cases hl : nbLookupV t a b with
+      | some x => rfl
+      | none =>
+        simp only [List.find?_cons]
+        cases hs : samePair e.a e.b a b <;> simp
+
+/-- the three layers of `gen_pairs` with values -/
+theorem genPairsV_lookup (f : CombFn) (yes : Bool) (ats : List AtomType) (expl : List NbV) (a b : String) :
+    nbLookupV (genPairsV f yes ats expl) a b =
+      (match nbLookupV expl a b with
+       | some e => some e
+       | none =>
+         match (if yes then ((combs2 ats).map fun p => (⟨p.1.name, p.2.name, .generated, (combValues f p.1 p.2).1,
+                        (combValues f p.1 p.2).2⟩ : NbV)).find? (fun e => samePair e.a e.b a b) else none) with
+         | some e => some e
+         | none => (ats.map fun x => (⟨x.name, x.name, .self, .exact x.nb1, .exact x.nb2⟩ : NbV)).find?
+                      (fun e => samePair e.a e.b a b)) := by
+  unfold genPairsV genSelfV
+  rw [nbLookupV_foldl]
+  cases yes with
+  | false => simp only [Bool.false_eq_true, if_false]
+  | true =>
+    simp only [if_true]
+    unfold genCrossV
+    rw [nbLookupV_foldl]
+    cases nbLookupV expl a b <;> rfl
+
+/-- both combination rules are symmetric under exchanging the two atom types -/
+theorem combValues_comm (f : CombFn) (x y : AtomType) : combValues f x y = combValues f y x := by
+  cases f <;>
+    simp only [combValues, CombFn.apply, lorentzBerthelot, geometric, Rat.add_comm x.nb1 y.nb1,
+      Rat.mul_comm x.nb1 y.nb1, Rat.mul_comm x.nb2 y.nb2]
+
+/-- the generated entry of a pair of different atom types carries the combination-rule values -/
+theorem genPairsV_generated (f : CombFn) (ats : List AtomType) (expl : List NbV)
+    (hn : (ats.map (·.name)).Nodup) (x y : AtomType) (hx : x ∈ ats) (hy : y ∈ ats) (hne : x.name ≠ y.name)
+    (hnone : nbLookupV expl x.name y.name = none) :
+    ∃ e, nbLookupV (genPairsV f true ats expl) x.name y.name = some e ∧ e.src = .generated ∧
+      (e.nb1, e.nb2) = combValues f x y := by
+  rw [genPairsV_lookup, hnone]
+  simp only [if_true]
+  have hfound : (((combs2 ats).map fun p => (⟨p.1.name, p.2.name, .generated, (combValues f p.1 p.2).1,
+      (combValues f p.1 p.2).2⟩ : NbV)).find? (fun e => samePair e.a e.b x.name y.name)).isSome = true := by
+    rw [List.find?_isSome]
+    have hc := combinations2_complete (ats.map (·.name)) x.name y.name (List.mem_map_of_mem hx)
+      (List.mem_map_of_mem hy) hne
+    rw [← combs2_names] at hc
+    simp only [List.mem_map] at hc
+    rcases hc with ⟨p, hp, hpe⟩ | ⟨p, hp, hpe⟩
+    · refine ⟨_, List.mem_map_of_mem hp, ?_⟩
+      simp only [Prod.mk.injEq] at hpe
+      simp [samePair, hpe.1, hpe.2]
+    · refine ⟨_, List.mem_map_of_mem hp, ?_⟩
+      simp only [Prod.mk.injEq] at hpe
+      simp [samePair, hpe.1, hpe.2]
+  cases hf : ((combs2 ats).map fun p => (⟨p.1.name, p.2.name, .generated, (combValues f p.1 p.2).1,
+      (combValues f p.1 p.2).2⟩ : NbV)).find? (fun e => samePair e.a e.b x.name y.name) with
+  | none => rw [hf] at hfound; cases hfound
+  | some e =>
+    refine ⟨e, rfl, ?_⟩
+    have hmem := List.mem_of_find?_eq_some hf
+    have hsp := List.find?_some hf
+    simp only [List.mem_map] at hmem
+    obtain ⟨p, hp, rfl⟩ := hmem
+    obtain ⟨hp1, hp2⟩ := mem_combs2 ats p hp
+    refine ⟨rfl, ?_⟩
+    simp only [samePair, Bool.or_eq_true, Bool.and_eq_true, beq_iff_eq] at hsp
+    rcases hsp with ⟨h1, h2⟩ | ⟨h1, h2⟩
+    · rw [name_inj ats hn p.1 x hp1 hx h1, name_inj ats hn p.2 y hp2 hy h2]
+    · rw [name_inj ats hn p.1 y hp1 hy h1, name_inj ats hn p.2 x hp2 hx h2, combValues_comm]
+
+/-! ### `convertEntry`: outcomes -/
+
+theorem convertEntry_pos (nb1 nb2 : Rat) (h1 : nb1 ≠ 0) (h2 : nb2 ≠ 0) (hr : ¬ nb2 / nb1 < 0) :
+    convertEntry nb1 nb2 = .ok (.root 6 (nb2 / nb1), nb1 ^ 2 / (4 * nb2)) := by
+  have h4 : 4 * nb2 ≠ 0 := by
+    intro h
+    rcases Rat.mul_eq_zero.mp h with h | h
+    · exact absurd h (by decide)
+    · exact h2 h
+  simp [convertEntry, rootVal, h1, h2, h4, hr]
+
+theorem convertEntry_zero : convertEntry 0 0 = .ok (.exact 0, 0) := by simp [convertEntry]
+
+theorem convertEntry_left_zero (nb2 : Rat) (h2 : nb2 ≠ 0) : convertEntry 0 nb2 = .error "ZeroDivisionError" := by
+  simp [convertEntry, h2]
+
+theorem convertEntry_right_zero (nb1 : Rat) (h1 : nb1 ≠ 0) : convertEntry nb1 0 = .error "ZeroDivisionError" := by
+  simp [convertEntry, h1]
 
 end PolyplyVerif.Proofs.Preprocess
